@@ -29,7 +29,12 @@ from gen_common import REPO, OUT, ShapeError
 LEAN_TY = {"int": "Int", "dec": "Rat", "dec0": "Rat", "bool": "Bool", "str": "String", "tok": "String", "xdec": "Py.XDec",
            "frame": "String → String → M Rat",
            # a datetime / timedelta on the whole-second grid: seconds since an epoch / seconds (the trigger classes; sub-second parts are outside)
-           "time": "Int", "delta": "Int", "trange": "Int × Int", "unit": "Unit"}
+           "time": "Int", "delta": "Int", "trange": "Int × Int", "unit": "Unit",
+           # float mode: a Python float is a value of the abstract number type α of the generated file (see Demeter/PyFloat.lean)
+           "flt": "α"}
+
+RECORDS = {}      # record class name -> [(field, type)]: filled by Unit.check_records (NamedTuples and dataclasses of the source, as tuples of their fields)
+
 
 
 def lean_ty(t):
@@ -41,7 +46,32 @@ def lean_ty(t):
         return f"Option ({lean_ty(t[1])})"
     if isinstance(t, tuple) and t[0] == "list":
         return f"List ({lean_ty(t[1])})"
+    if isinstance(t, tuple) and t[0] == "rec":
+        return lean_ty(("tuple", [ft for _, ft in RECORDS[t[1]]]))
     return LEAN_TY[t]
+
+
+def placeholder(t):
+    """a value of the type, for a variable that is declared before an `if` whose every continuing branch assigns it (no path reads the placeholder)"""
+    if isinstance(t, tuple) and t[0] == "tuple":
+        return "(" + ", ".join(placeholder(x) for x in t[1]) + ")"
+    if isinstance(t, tuple) and t[0] == "rec":
+        return placeholder(("tuple", [ft for _, ft in RECORDS[t[1]]])) if len(RECORDS[t[1]]) > 1 else placeholder(RECORDS[t[1]][0][1])
+    if isinstance(t, tuple) and t[0] == "opt":
+        return "none"
+    if isinstance(t, tuple) and t[0] in ("list", "dict"):
+        return "[]"
+    return {"int": "(0 : Int)", "dec": "(0 : Rat)", "dec0": "(0 : Rat)", "flt": "(0 : α)", "bool": "false", "str": '""', "tok": '""',
+            "time": "(0 : Int)", "delta": "(0 : Int)", "xdec": "(Py.XDec.fin 0)", "trange": "((0 : Int), (0 : Int))"}[t]
+
+
+def rec_proj(term, fields, name):
+    """projection of a field out of the right-nested tuple of a record's fields"""
+    names = [f for f, _ in fields]
+    i, n = names.index(name), len(names)
+    if n == 1:
+        return term
+    return f"{term}" + ".2" * i + ("" if i == n - 1 else ".1")
 
 
 def fail(node, what):
@@ -107,6 +137,11 @@ class Fn:
         self.uses_cx = False
         self.uses_pow = False
         self.uses_fuel = False
+        self.uses_o = False
+        self.hoist = {}            # (line, col) of an `if` -> [(name, type)] first assigned in every continuing branch: declared before it (N3)
+        self.hoisted = {}          # such names that are declared and not yet in scope as assigned variables
+        self.promote = set()       # float mode: variables that hold the int literal 0 at one point and a float at another: the float zero
+        self.probing = False
         self.used_reads = {}
         self.ret_types = []
         self.ret = None
@@ -135,6 +170,18 @@ class Fn:
                 return f"({m.group(1)} : Rat)"      # an int literal: the same number as a Rat literal
             return f"(({term} : Int) : Rat)"
         fail(node, f"a {ty} where a Decimal or int is needed")
+
+    def as_flt(self, term, ty, node):
+        """float mode: a float, or the int literal 0 (CPython converts an int operand of float arithmetic exactly; only the literal 0 is supported)"""
+        if ty == "flt":
+            return term
+        if ty == "int" and term == "(0 : Int)":
+            return "(0 : α)"
+        fail(node, f"a {ty} where a float is needed (among floats only the int literal 0 is converted)")
+
+    def ops(self):
+        self.uses_o = True
+        return "o"
 
     def as_prop(self, term, ty, node):
         if ty == "prop":
@@ -209,6 +256,13 @@ class Fn:
                 return self.effect(ind, f'{v.value.value.id} {k} "{n.attr}"', "dec")
             if n.attr in ("start", "end") and isinstance(n.value, ast.Name) and env.get(n.value.id) == "trange":
                 return f"{n.value.id}.{1 if n.attr == 'start' else 2}", "time"     # TimeRange(start, end)
+            if isinstance(n.value, ast.Name) and n.value.id not in env and (n.value.id, n.attr) in self.unit.enums:
+                return f"({self.unit.enums[(n.value.id, n.attr)]} : Int)", "int"      # a member of an int-valued Enum of the source: its value
+            if isinstance(n.value, ast.Name) and isinstance(env.get(n.value.id), tuple) and env[n.value.id][0] == "rec":
+                fields = RECORDS[env[n.value.id][1]]
+                if n.attr not in dict(fields):
+                    fail(n, f"{env[n.value.id][1]} has no field {n.attr}")
+                return rec_proj(n.value.id, fields, n.attr), dict(fields)[n.attr]
             if n.attr == "name":
                 a, ta = self.expr(n.value, env, ind)
                 if ta == "tok":
@@ -224,6 +278,8 @@ class Fn:
                     return f"(-{a})", "int"
                 if ta == "dec":
                     return f"(Py.dneg {self.cx()} {a})", "dec"
+                if ta == "flt":
+                    return f"(-{a})", "flt"
             if isinstance(n.op, ast.UAdd):
                 if ta == "int":
                     return a, "int"
@@ -267,6 +323,9 @@ class Fn:
                 # and a Decimal of that value behave alike (arithmetic with a Decimal partner, comparisons, Decimal())
                 a, b = self.as_dec(a, ta, n) if ta == "int" else a, self.as_dec(b, tb, n) if tb == "int" else b
                 ta = tb = "dec0"
+            if isinstance(ta, str) and isinstance(tb, str) and {ta, tb} == {"int", "flt"}:
+                a, b = self.as_flt(a, ta, n), self.as_flt(b, tb, n)
+                ta = tb = "flt"
             if isinstance(ta, str) and isinstance(tb, str) and {ta, tb} == {"dec", "xdec"}:
                 if ta == "dec": a, ta = f"(Py.XDec.fin {a})", "xdec"
                 if tb == "dec": b, tb = f"(Py.XDec.fin {b})", "xdec"
@@ -363,6 +422,10 @@ class Fn:
             a = a if ta == "fconst" else self.as_dec(a, ta, n)
             b = b if tb == "fconst" else self.as_dec(b, tb, n)
             return f"({a} {sym} {b})"
+        if "flt" in (ta, tb):
+            if sym in ("=", "≠"):
+                fail(n, "== / != between floats (not in the subset: use an ordering comparison)")
+            return f"({self.as_flt(a, ta, n)} {sym} {self.as_flt(b, tb, n)})"
         if ta == tb and ta in ("int", "dec"):
             return f"({a} {sym} {b})"
         if {ta, tb} == {"int", "dec"}:  # exact comparison, no rounding
@@ -387,6 +450,14 @@ class Fn:
             nm = rn.id if isinstance(rn, ast.Name) else (rn.attr if isinstance(rn, ast.Attribute) else None)
             if nm in self.consts and isinstance(self.unit.const_values.get(nm), int):
                 cb = self.unit.const_values[nm]
+        if "flt" in (ta, tb):
+            a, b = self.as_flt(a, ta, n), self.as_flt(b, tb, n)
+            if isinstance(op, ast.Add): return f"({a} + {b})", "flt"
+            if isinstance(op, ast.Sub): return f"({a} - {b})", "flt"
+            if isinstance(op, ast.Mult): return f"({a} * {b})", "flt"
+            if isinstance(op, ast.Div): return self.effect(ind, f"Py.fdiv {self.ops()} {a} {b}", "flt")      # ZeroDivisionError when b == 0
+            if isinstance(op, ast.Pow): return self.effect(ind, f"Py.fpow {self.ops()} {a} {b}", "flt")      # CPython's float_pow
+            fail(n, f"float operator {type(op).__name__} (only + - * / ** are translated)")
         if ta == "int" and tb == "int":
             if isinstance(op, ast.Add): return f"({a} + {b})", "int"
             if isinstance(op, ast.Sub): return f"({a} - {b})", "int"
@@ -461,6 +532,9 @@ class Fn:
             fname = self.unit.nested_alias[(self.unit.cur_parent, f.id)]      # a function defined inside the function being translated (or a sibling)
         elif isinstance(f, ast.Name):
             fname = f.id
+        elif isinstance(f, ast.Attribute) and isinstance(f.value, ast.Name) and f.value.id not in env \
+                and f"{f.value.id}.{f.attr}" in self.unit.by_src:
+            fname = f"{f.value.id}.{f.attr}"       # ClassName.static_method(...), the class being this one or one of a used file
         elif isinstance(f, ast.Attribute) and isinstance(f.value, ast.Name) and f.value.id == self.unit.cur_cls:
             fname = f.attr       # ClassName.static_method(...)
         elif isinstance(f, ast.Attribute) and isinstance(f.value, ast.Name) and f.value.id == "self" and self.unit.cur_cls \
@@ -489,6 +563,7 @@ class Fn:
                 a, ta = self.expr(args[0], env, ind)
                 if ta == "int": return f"(Py.iabs {a})", "int"
                 if ta == "dec": return f"(Py.dabs {self.cx()} {a})", "dec"
+                if ta == "flt": return f"(Py.fabs {a})", "flt"
                 fail(n, f"abs() of a {ta}")
             if fname == "datetime" and len(args) == 5 and all(isinstance(x, ast.Attribute) and isinstance(x.value, ast.Name) for x in args) \
                     and [x.attr for x in args] == ["year", "month", "day", "hour", "minute"] and len({x.value.id for x in args}) == 1 \
@@ -504,7 +579,10 @@ class Fn:
                 if len(args) != 2: fail(n, f"{fname}() with other than two arguments")
                 a, ta = self.expr(args[0], env, ind)
                 b, tb = self.expr(args[1], env, ind)
-                if ta != tb or ta not in ("int", "dec"):
+                if "flt" in (ta, tb):
+                    a, b = self.as_flt(a, ta, n), self.as_flt(b, tb, n)
+                    ta = tb = "flt"
+                if ta != tb or ta not in ("int", "dec", "flt"):
                     fail(n, f"{fname}() of {ta} and {tb}")
                 # CPython: min(a, b) = b if b < a else a ; max(a, b) = b if b > a else a
                 rel = "<" if fname == "min" else ">"
@@ -613,6 +691,8 @@ class Fn:
                 state_vars.append(got[0])
                 read_args.append(got[0])
         cxs = (self.cx() + " ") if sig.uses_cx else ""
+        if getattr(sig, "uses_o", False):
+            cxs = self.ops() + " " + cxs
         if sig.uses_pow:
             self.uses_pow = True
             cxs += "dpow "
@@ -658,10 +738,13 @@ class Fn:
         parts, tys = [], []
         for fn_, ft in fields:
             a, ta = vals[id(given[fn_])]
+            if ta == "prop": a, ta = self.as_bool(a, ta, n), "bool"
+            if ft == "flt" and ta == "int":
+                a, ta = self.as_flt(a, ta, n), "flt"
             if ta != ft:
                 fail(n, f"field {fn_} of {name}: a {ta} where the record table has {ft}")
             parts.append(a); tys.append(ft)
-        return "(" + ", ".join(parts) + ")", ("tuple", tys)
+        return ("(" + ", ".join(parts) + ")" if len(parts) > 1 else parts[0]), ("rec", name)
 
     def quantize(self, n, env, ind):
         """`x.quantize(Decimal(f"1e{k}") | Decimal(<int or "literal">) [, rounding=decimal.ROUND_*])`  ↦  `Py.quantize mode x k`"""
@@ -820,7 +903,11 @@ class Fn:
             if isinstance(s, (ast.Assign, ast.AnnAssign)):
                 if isinstance(s, ast.Assign):
                     if len(s.targets) != 1:
-                        fail(s, "chained assignment")
+                        if not (isinstance(s.value, ast.Constant) and all(isinstance(tg, ast.Name) for tg in s.targets)):
+                            fail(s, "chained assignment (only `a = b = <constant>` is translated)")
+                        for tg in s.targets:          # the constant is assigned to each name, left to right
+                            self.assign(tg, s.value, None, env, ind, s)
+                        continue
                     target, value, ann = s.targets[0], s.value, None
                 else:
                     target, value, ann = s.target, s.value, s.annotation
@@ -829,22 +916,46 @@ class Fn:
                 self.assign(target, value, ann, env, ind, s)
                 continue
             if isinstance(s, ast.AugAssign):
-                if not isinstance(s.target, ast.Name):
-                    fail(s, "augmented assignment to a non-name")
-                fake = ast.BinOp(left=ast.Name(id=s.target.id, ctx=ast.Load()), op=s.op, right=s.value)
-                ast.copy_location(fake, s); ast.copy_location(fake.left, s)
+                if isinstance(s.target, ast.Attribute) and isinstance(s.target.value, ast.Name):
+                    left = ast.Attribute(value=ast.Name(id=s.target.value.id, ctx=ast.Load()), attr=s.target.attr, ctx=ast.Load())
+                elif isinstance(s.target, ast.Name):
+                    left = ast.Name(id=s.target.id, ctx=ast.Load())
+                else:
+                    fail(s, "augmented assignment to something other than a name or a field of a local record")
+                fake = ast.BinOp(left=left, op=s.op, right=s.value)
+                ast.fix_missing_locations(ast.copy_location(fake, s))
                 self.assign(s.target, fake, None, env, ind, s)
                 continue
             if isinstance(s, ast.If):
                 c, tc = self.expr(s.test, env, ind)
                 if self.conditional_assignment(s, self.as_prop(c, tc, s), env, ind):
                     continue
+                key, pre = (s.lineno, s.col_offset), []
+                if not self.probing:
+                    # N3: a variable first assigned inside every continuing branch is declared before the `if` with a placeholder no path can read
+                    for nm, ty in self.hoist.get(key, []):
+                        if nm not in env and nm not in self.hoisted:
+                            self.emit(ind, f"let mut {nm} := {placeholder(ty)}")
+                            self.hoisted[nm] = ty
+                            pre.append(nm)
                 self.emit(ind, f"if {self.as_prop(c, tc, s)} then")
                 env_a, term_a = self.block(s.body, env, ind + 1)
                 term_b, env_b = False, env
                 if s.orelse:
                     self.emit(ind, "else")
                     env_b, term_b = self.block(s.orelse, env, ind + 1)
+                live = [e for e, dead in ((env_a, term_a), (env_b, term_b)) if not dead]
+                common = [nm for nm in live[0] if nm not in env and all(nm in e and e[nm] == live[0][nm] for e in live)] if live else []
+                if self.probing:
+                    self.hoist[key] = [(nm, live[0][nm]) for nm in common]
+                    for nm in common:
+                        env[nm] = live[0][nm]
+                else:
+                    for nm in pre:
+                        self.hoisted.pop(nm, None)
+                    for nm in common:
+                        if nm in dict(self.hoist.get(key, [])):
+                            env[nm] = live[0][nm]
                 # after the statement: only variables declared BEFORE it are in scope (a `let` inside a branch is
                 # local to the branch in Lean); their types must agree on every path that continues
                 for live_env, dead in ((env_a, term_a), (env_b, term_b)):
@@ -853,6 +964,9 @@ class Fn:
                     for k in env:
                         if isinstance(live_env[k], str) and isinstance(env[k], str) and {live_env[k], env[k]} == {"dec", "dec0"}:
                             env[k] = "dec0"
+                        elif self.probing and isinstance(live_env[k], str) and isinstance(env[k], str) and {live_env[k], env[k]} == {"int", "flt"}:
+                            self.promote.add(k)       # float mode, pass 1: the int literal 0 on one path, a float on another
+                            env[k] = "flt"
                         elif live_env[k] != env[k]:
                             fail(s, f"variable '{k}' changes type inside a branch")
                 if term_a and term_b:
@@ -870,7 +984,10 @@ class Fn:
                         fail(m, f"{type(m).__name__.lower()} inside a for loop")
                 env_l, term_l = self.block(s.body, env2, ind + 1)
                 for k in env:
-                    if env_l[k] != env[k]:
+                    if self.probing and isinstance(env_l[k], str) and isinstance(env[k], str) and {env_l[k], env[k]} == {"int", "flt"}:
+                        self.promote.add(k)
+                        env[k] = "flt"
+                    elif env_l[k] != env[k]:
                         fail(s, f"variable '{k}' changes type inside the loop")
                 continue
             if isinstance(s, ast.While):
@@ -912,6 +1029,9 @@ class Fn:
             fname = self.unit.nested_alias[(self.unit.cur_parent, f.id)]
         elif isinstance(f, ast.Name):
             fname = f.id
+        elif isinstance(f, ast.Attribute) and isinstance(f.value, ast.Name) and f.value.id not in env \
+                and f"{f.value.id}.{f.attr}" in self.unit.by_src:
+            fname = f"{f.value.id}.{f.attr}"
         elif isinstance(f, ast.Attribute) and isinstance(f.value, ast.Name) and f.value.id == self.unit.cur_cls:
             fname = f.attr
         elif isinstance(f, ast.Attribute) and isinstance(f.value, ast.Name) and f.value.id == "self" and self.unit.cur_cls \
@@ -950,6 +1070,40 @@ class Fn:
                 or (isinstance(par, ast.Attribute) and par.attr == "sort" and par.value is m and isinstance(parents.get(par), ast.Call))
             if not ok:
                 fail(m, f"'{nm}' is sorted in place and used where another name could come to hold the same list (line {getattr(m, 'lineno', '?')})")
+
+    def check_unaliased_record(self, nm, node):
+        """`r.f = e` mutates the dataclass instance: sound as a re-assignment of the variable only if no other name can hold the same object.  Required:
+        `r` is a local (not a parameter), every binding of it is a fresh object (the constructor, or the result of a translated call — a translated
+        function has no globals and may not return a parameter that is a record, see Unit.generate), and it is used only in `r.f`, `r.f = e`, and in a
+        `return`"""
+        if nm in dict(self.params):
+            fail(node, f"assignment to a field of the parameter '{nm}' (the caller's object would change)")
+        parents = {}
+        for m in ast.walk(self.fdef):
+            for ch in ast.iter_child_nodes(m):
+                parents[ch] = m
+        for m in ast.walk(self.fdef):
+            if not (isinstance(m, ast.Name) and m.id == nm):
+                continue
+            par = parents.get(m)
+            if isinstance(m.ctx, ast.Store):
+                tgt_par = par
+                ok = False
+                if isinstance(par, (ast.Assign, ast.AnnAssign)):
+                    ok = isinstance(par.value, ast.Call)
+                elif isinstance(par, ast.Tuple) and isinstance(parents.get(par), ast.Assign):
+                    ok = isinstance(parents[par].value, ast.Call)
+                if not ok:
+                    fail(m, f"a field of '{nm}' is assigned, so every binding of it must be a fresh object (a constructor or a call)")
+                continue
+            ok = (isinstance(par, ast.Attribute) and par.value is m)
+            if not ok:
+                up, node_ = par, m
+                while isinstance(up, ast.Tuple):
+                    up, node_ = parents.get(up), up
+                ok = isinstance(up, ast.Return)
+            if not ok:
+                fail(m, f"a field of '{nm}' is assigned and '{nm}' is used where another name could come to hold the same object (line {getattr(m, 'lineno', '?')})")
 
     def while_loop(self, s, env, ind):
         """`while c: body` ↦ `vars ← Py.whileFuel (fun vars => do …; pure (decide c)) (fun vars => do body; pure vars) fuel vars`: the variables the
@@ -1041,9 +1195,13 @@ class Fn:
     def check_ann(self, ann, ty, node):
         if ann is None:
             return
-        want = {"int": "int", "Decimal": "dec", "bool": "bool", "str": "str"}.get(getattr(ann, "id", None))
+        if isinstance(ty, tuple) and ty[0] == "rec" and getattr(ann, "id", None) == ty[1]:
+            return
+        want = {"int": "int", "Decimal": "dec", "bool": "bool", "str": "str", "float": "flt"}.get(getattr(ann, "id", None))
         if want is None:
             fail(node, "unsupported annotation on a local")
+        if {want, ty} == {"int", "flt"} and self.unit.float_mode:
+            return          # float mode: `x: float = 0` and `impactFactor: int = <a float>` — the annotations of this code base do not separate the two
         if want != ty:
             fail(node, f"local annotated {ann.id} but the value is a {ty}")
 
@@ -1055,6 +1213,28 @@ class Fn:
             a, ta = self.expr(value, env, ind)
             if not (isinstance(ta, tuple) and ta[0] == "tuple" and len(ta[1]) == len(names)):
                 fail(s, f"tuple assignment from a {ta}")
+            if "_" in names:
+                # `x, _ = …`: the conventional name of a value that is not used; never a variable of the translation (a later use of `_` fails)
+                if names.count("_") == len(names):
+                    fail(s, "tuple assignment to `_` only")
+                keep = [(nm, t) for nm, t in zip(names, ta[1]) if nm != "_"]
+                if any(nm in env for nm, _ in keep):
+                    for nm, t in keep:
+                        if env.get(nm) != t:
+                            fail(s, f"variable '{nm}' changes type ({env.get(nm)} → {t})")
+                        self.reassigned.add(nm)
+                    # through fresh names (`x'` is no Python identifier), then plain re-assignments
+                    fresh = [f"{nm}'" if nm != "_" else "_" for nm in names]
+                    self.emit(ind, "let (" + ", ".join(fresh) + f") := {a}")
+                    for nm, fr in zip(names, fresh):
+                        if nm != "_":
+                            self.emit(ind, f"{nm} := {fr}")
+                else:
+                    m_ = "mut " if any(nm in self.mut for nm, _ in keep) else ""
+                    self.emit(ind, f"let {m_}(" + ", ".join(names) + f") := {a}")
+                    for nm, t in keep:
+                        env[nm] = t
+                return
             old = [nm in env for nm in names]
             pat = "(" + ", ".join(names) + ")"
             if all(old):
@@ -1074,11 +1254,36 @@ class Fn:
             else:
                 fail(s, "tuple assignment mixing new and existing variables")
             return
+        if isinstance(target, ast.Attribute) and isinstance(target.value, ast.Name) and isinstance(env.get(target.value.id), tuple) \
+                and env[target.value.id][0] == "rec":
+            # `r.f = e` on a local dataclass instance: the variable is re-assigned the record with that field replaced (sound only while no other
+            # name holds the same object: check_unaliased_record)
+            rn = target.value.id
+            fields = RECORDS[env[rn][1]]
+            if target.attr not in dict(fields):
+                fail(s, f"{env[rn][1]} has no field {target.attr}")
+            self.check_unaliased_record(rn, s)
+            a, ta = self.expr(value, env, ind)
+            if dict(fields)[target.attr] == "flt" and ta == "int":
+                a, ta = self.as_flt(a, ta, s), "flt"
+            if ta != dict(fields)[target.attr]:
+                fail(s, f"field {target.attr} of {env[rn][1]}: a {ta} where the record table has {dict(fields)[target.attr]}")
+            parts = [a if f == target.attr else rec_proj(rn, fields, f) for f, _ in fields]
+            self.reassigned.add(rn)
+            self.emit(ind, f"{rn} := " + ("(" + ", ".join(parts) + ")" if len(parts) > 1 else parts[0]))
+            return
         if not isinstance(target, ast.Name):
             fail(s, f"assignment to {type(target).__name__}")
         name = target.id
+        if name == "_":
+            fail(s, "assignment to `_`")
         a, ta = self.expr(value, env, ind)
         if ta == "prop": a, ta = self.as_bool(a, ta, s), "bool"
+        if ta == "int" and name in self.promote:
+            a, ta = self.as_flt(a, ta, s), "flt"      # float mode: the int literal 0 in a variable that also holds floats is the float zero
+        if self.probing and name in env and isinstance(ta, str) and isinstance(env[name], str) and {env[name], ta} == {"int", "flt"}:
+            self.promote.add(name)
+            env[name] = ta = "flt"
         self.check_ann(ann, ta, s)
         # peephole: `let t ← act; x := t`  ⇒  `x ← act`
         direct = None
@@ -1098,6 +1303,12 @@ class Fn:
                 fail(s, f"variable '{name}' changes type ({env[name]} → {ta})")
             self.reassigned.add(name)
             self.emit(ind, f"{name} ← {direct}" if direct else f"{name} := {a}")
+        elif name in self.hoisted:
+            if self.hoisted[name] != ta:
+                fail(s, f"variable '{name}' is assigned a {ta} here and a {self.hoisted[name]} on another path")
+            self.reassigned.add(name)
+            self.emit(ind, f"{name} ← {direct}" if direct else f"{name} := {a}")
+            env[name] = ta
         else:
             m = "mut " if name in self.mut else ""
             self.emit(ind, f"let {m}{name} ← {direct}" if direct else f"let {m}{name} := {a}")
@@ -1110,7 +1321,10 @@ class Fn:
             probe = Fn(self.unit, self.fdef, self.params, self.consts)
             probe.mut = {n.id for n in ast.walk(self.fdef) if isinstance(n, ast.Name)} | {p for p, _ in self.params}
             probe.set_ret = lambda ty, node: probe.ret_types.append(ty)      # pass 1 only collects the return types
+            probe.probing = True
             probe.translate()
+            self.promote = set(probe.promote)
+            self.hoist = dict(probe.hoist)
             self.mut = probe.reassigned | {v for v, _ in (self.unit.cur_state or {}).values()}
             rts = set(map(repr, probe.ret_types))
             if len(rts) > 1:
@@ -1157,7 +1371,7 @@ class Fn:
         return self.lines, self.ret, self.uses_cx, self.uses_pow
 
 
-ANN = {"int": "int", "Decimal": "dec", "bool": "bool", "str": "str"}
+ANN = {"int": "int", "Decimal": "dec", "bool": "bool", "str": "str", "float": "flt"}
 
 # Python identifiers that are reserved words / commands of Lean 4 (or names the generated code itself uses): written `«name»` in the output
 LEAN_RESERVED = set("""end from at fun let do then else if match with open in show have by where structure class instance def theorem lemma example
@@ -1219,7 +1433,8 @@ class _StateRewriter(ast.NodeTransformer):
 class Unit:
     """one Python source file (optionally one class of static methods) → one generated Lean file"""
 
-    def __init__(self, module, src, funcs, cls=None, consts=(), prefix="", reads=None, state=None, allow_defaults=False, records=None):
+    def __init__(self, module, src, funcs, cls=None, consts=(), prefix="", reads=None, state=None, allow_defaults=False, records=None,
+                 float_mode=False, enums=None):
         self.module, self.src, self.funcs, self.cls, self.const_names, self.prefix = module, src, funcs, cls, consts, prefix
         # state: {exact source text of an attribute of self: (variable, type)} — an object field the method reads AND writes.  The field becomes
         # a leading parameter (its value on entry) that the body may re-assign; `return self` returns the fields' values on exit, in the
@@ -1237,6 +1452,11 @@ class Unit:
         # checked against the class definition in the source on every run (a changed field list makes every use a ShapeError)
         self.record_specs = records or {}
         self.records = {}
+        # float_mode: the file computes with Python floats: they are values of an abstract number type α (Demeter/PyFloat.lean)
+        self.float_mode = float_mode
+        # enums: {Enum class name: source file}: `Cls.MEMBER` is the int value the class definition gives it
+        self.enum_specs = enums or {}
+        self.enums = {}
         self.cur_parent, self.nested_alias, self.cur_nested_ok, self.by_src = None, {}, (), {}
         self.method_alias = {}
         self.uses = []           # other units whose translated functions may be called (their generated module is imported)
@@ -1252,23 +1472,54 @@ class Unit:
                 if len(cdef) != 1:
                     raise ShapeError(f"class {name} not found (once) in {src}")
                 cdef = cdef[0]
-                if [ast.unparse(b) for b in cdef.bases] not in (["NamedTuple"], ["typing.NamedTuple"]) or cdef.decorator_list:
-                    raise ShapeError(f"class {name} is not a plain NamedTuple")
+                bases, decos = [ast.unparse(b) for b in cdef.bases], [ast.unparse(d_) for d_ in cdef.decorator_list]
+                is_nt = bases in (["NamedTuple"], ["typing.NamedTuple"]) and not decos
+                is_dc = bases in ([], ["object"]) and decos in (["dataclass"], ["dataclasses.dataclass"])
+                if not (is_nt or is_dc):
+                    raise ShapeError(f"class {name} is neither a plain NamedTuple nor a plain @dataclass")
                 got = []
                 for m in cdef.body:
                     if isinstance(m, ast.AnnAssign) and isinstance(m.target, ast.Name):
                         if m.value is not None:
                             raise ShapeError(f"field {m.target.id} of {name} has a default")
-                        got.append((m.target.id, ANN.get(getattr(m.annotation, "id", None))))
+                        want = dict(fields).get(m.target.id)
+                        an = ANN.get(getattr(m.annotation, "id", None))
+                        if self.float_mode and {an, want} == {"int", "flt"}:
+                            an = want       # this code base annotates float fields `int` here and there; the record table decides
+                        got.append((m.target.id, an))
                     elif isinstance(m, ast.Expr) and isinstance(m.value, ast.Constant) and isinstance(m.value.value, str):
                         continue
-                    elif isinstance(m, ast.FunctionDef) and m.name in ("__new__", "__init__", "_make", "_replace"):
+                    elif isinstance(m, ast.FunctionDef) and m.name in ("__new__", "__init__", "__post_init__", "__setattr__", "__getattr__",
+                                                                       "__getattribute__", "_make", "_replace"):
                         raise ShapeError(f"class {name} overrides {m.name}")
                 if got != [(fn_, ft) for fn_, ft in fields]:
                     raise ShapeError(f"fields of {name} in {src} are {got}, the record table says {fields}")
                 self.records[name] = list(fields)
+                RECORDS[name] = list(fields)
             except (ShapeError, OSError, SyntaxError) as e:
                 self.records[name] = f"record {name}: {e}"
+                RECORDS.setdefault(name, list(fields))
+        for name, src in self.enum_specs.items():
+            try:
+                with open(os.path.join(REPO, src)) as f:
+                    tree = ast.parse(f.read())
+                cdef = [n for n in tree.body if isinstance(n, ast.ClassDef) and n.name == name]
+                if len(cdef) != 1 or [ast.unparse(b) for b in cdef[0].bases] not in (["enum.Enum"], ["Enum"]) or cdef[0].decorator_list:
+                    raise ShapeError(f"class {name} is not a plain Enum (once) in {src}")
+                vals = {}
+                for m in cdef[0].body:
+                    if isinstance(m, ast.Assign) and len(m.targets) == 1 and isinstance(m.targets[0], ast.Name) and const_value(m.value) is not None:
+                        vals[m.targets[0].id] = const_value(m.value)
+                    elif isinstance(m, ast.Expr) and isinstance(m.value, ast.Constant):
+                        continue
+                    else:
+                        raise ShapeError(f"class {name} has a member that is not `NAME = <int>`")
+                if len(set(vals.values())) != len(vals):
+                    raise ShapeError(f"enum {name} has aliases (two names with one value)")
+                for k, v in vals.items():
+                    self.enums[(name, k)] = v
+            except (ShapeError, OSError, SyntaxError):
+                pass        # its members are then unknown names: every function that mentions one fails loudly
 
     def check_nested_layout(self, fdef, parent_name):
         """functions defined inside `fdef` must be direct children of its body, precede every other statement (so each exists whenever one of them
@@ -1416,7 +1667,15 @@ class Unit:
         for n, pt, o in entries:
             if not o.get("nested_in"):
                 self.by_src.setdefault(n, []).append(o.get("as", n))
+                c = o.get("cls", self.cls)
+                if c:
+                    self.by_src.setdefault(f"{c}.{n}", []).append(o.get("as", n))      # `Cls.f(…)`: a static method of a class of this or a used file
         self.check_records()
+        for u in self.uses:
+            for k, v in u.records.items():
+                self.records.setdefault(k, v)
+            for k, v in u.enums.items():
+                self.enums.setdefault(k, v)
         self.funcs = [(o.get("as", n), pt) for n, pt, o in entries]
         for (n, pt, o) in entries:
             key = o.get("as", n)
@@ -1470,6 +1729,8 @@ class Unit:
                         fail(m, f"the variable '{nm}' has the name the read / state table gives to an input of this function")
                 for x in a.args:
                     an = getattr(x.annotation, "id", None)
+                    if self.float_mode and an in ANN and {ANN[an], ptypes.get(x.arg)} == {"int", "flt"}:
+                        continue        # float mode: this code base annotates float parameters `int` here and there (impactFactor: int); the table decides
                     if x.arg in ptypes and an in ANN and ANN[an] != ptypes[x.arg] and x.arg not in opts.get("override_ann", ()):
                         fail(fdef, f"parameter {x.arg} is annotated {an}, the signature table says {ptypes[x.arg]}")
                 for d in fdef.decorator_list:
@@ -1494,7 +1755,8 @@ class Unit:
                 own = [m for m in ast.walk(orig_fdef) if isinstance(m, ast.Return)
                        and not any(m in ast.walk(d) for d in self.cur_nested_ok)]
                 sig.state_only = bool(self.cur_state) and all(m.value is None or (isinstance(m.value, ast.Name) and m.value.id == "self") for m in own)
-                binders = ("(cx : NumCtx) " if uses_cx else "") + ("(dpow : Rat → Nat → Rat) " if uses_pow else "") + ("(fuel : Nat) " if fn.uses_fuel else "") \
+                sig.uses_o = fn.uses_o
+                binders = ("(o : FloatOps α) " if fn.uses_o else "") + ("(cx : NumCtx) " if uses_cx else "") + ("(dpow : Rat → Nat → Rat) " if uses_pow else "") + ("(fuel : Nat) " if fn.uses_fuel else "") \
                     + "".join(f"({nm} : {lean_ty(ty)}) " for nm, ty in sig.reads) + " ".join(f"({p} : {lean_ty(t)})" for p, t in sig.params if t != "obj")
                 head = f"/-- `{self.src}` line {fdef.lineno}: `{(self.cur_cls + '.') if self.cur_cls else ''}{(opts['nested_in'] + '.') if opts.get('nested_in') else ''}{src_name}` -/\ndef {sig.lean_name} {binders} : M ({lean_ty(ret)}) := do"
                 defs.append(head + "\n" + "\n".join(lines))
@@ -1507,9 +1769,12 @@ class Unit:
                 f"-- translated: {', '.join(ok) if ok else '(none)'}"]
         if failures:
             head.append(f"-- NOT translated: {', '.join(n for n, _ in failures)}")
-        imports = ["import Demeter.PyPrelude"] + [f"import Demeter.Gen.Py{u.module}" for u in self.uses]
-        text = "\n".join(head + imports + ["namespace Demeter.Py", "set_option linter.unusedVariables false", ""]) \
-            + "\n\n".join(defs) + "\n\nend Demeter.Py\n"
+        imports = ["import Demeter.PyFloat" if self.float_mode else "import Demeter.PyPrelude"] + [f"import Demeter.Gen.Py{u.module}" for u in self.uses]
+        opening = ["namespace Demeter.Py", "set_option linter.unusedVariables false"]
+        if self.float_mode:
+            opening += ["section", "variable {α : Type} [Add α] [Sub α] [Mul α] [Div α] [Neg α] [LT α] [LE α] [OfNat α 0] [DecidableLT α] [DecidableLE α]"]
+        text = "\n".join(head + imports + opening + [""]) \
+            + "\n\n".join(defs) + ("\n\nend" if self.float_mode else "") + "\n\nend Demeter.Py\n"
         return text, failures
 
 
@@ -1638,6 +1903,50 @@ UNISWAP_CORE.uses = [UNITS[0], UNISWAP_HELPER]
 UNITS.append(UNISWAP_CORE)
 
 
+# ---- GMX v2 (float mode): demeter/gmx/gmx_v2/*.py
+FL = "flt"
+_G2 = "demeter/gmx/gmx_v2/"
+_G2_RECORDS = {
+    "PoolParams": (_G2 + "SwapPricingUtils.py", [("poolUsdForTokenA", FL), ("poolUsdForTokenB", FL), ("nextPoolUsdForTokenA", FL), ("nextPoolUsdForTokenB", FL)]),
+    "SwapFees": (_G2 + "SwapPricingUtils.py", [("amountAfterFees", FL), ("totalFee", FL)]),
+    "Amounts": (_G2 + "SwapPricingUtils.py", [("long", FL), ("short", FL)]),
+    "LPResult": (_G2 + "_typing.py", [("long_amount", FL), ("short_amount", FL), ("total_usd", FL), ("gm_amount", FL), ("gm_usd", FL),
+                                      ("long_fee", FL), ("short_fee", FL), ("fee_usd", FL), ("price_impact_usd", FL)]),
+}
+_G2_CFG = {"pool_config.swapImpactFactorPositive": ("impact_factor_positive", FL), "pool_config.swapImpactFactorNegative": ("impact_factor_negative", FL),
+           "pool_config.swapImpactExponentFactor": ("impact_exponent", FL),
+           "pool_config.depositFeeFactorForPositiveImpact": ("deposit_fee_positive", FL), "pool_config.depositFeeFactorForNegativeImpact": ("deposit_fee_negative", FL),
+           "pool_config.withdrawFeeFactorForPositiveImpact": ("withdraw_fee_positive", FL), "pool_config.withdrawFeeFactorForNegativeImpact": ("withdraw_fee_negative", FL),
+           "pool_config.longDecimal": ("long_decimal", I), "pool_config.shortDecimal": ("short_decimal", I)}
+_G2_STATUS = {"pool_status.longAmount": ("long_amount_pool", FL), "pool_status.shortAmount": ("short_amount_pool", FL),
+              "pool_status.virtualSwapInventoryLong": ("virtual_long", ("opt", FL)), "pool_status.virtualSwapInventoryShort": ("virtual_short", ("opt", FL)),
+              "pool_status.poolValue": ("pool_value", FL), "pool_status.marketTokensSupply": ("market_tokens_supply", FL),
+              "pool_status.impactPoolAmount": ("impact_pool_amount", FL), "pool_status.longPrice": ("long_price", FL), "pool_status.shortPrice": ("short_price", FL)}
+GMX2_UTILS = Unit("Gmx2Utils", _G2 + "utils.py", [
+    ("sumReturnUint256", {"a": FL, "b": FL}, {"cls": "Calc"}),
+    ("diff", {"a": FL, "b": FL}, {"cls": "Calc"}),
+    ("toSigned", {"a": FL, "isPositive": B}, {"cls": "Calc"}),
+    ("applyImpactFactor", {"diffUsd": FL, "impactFactor": FL, "impactExponentFactor": FL}, {"cls": "PricingUtils"}),
+    ("getPriceImpactUsdForSameSideRebalance", {"initialDiffUsd": FL, "nextDiffUsd": FL, "impactFactor": FL, "impactExponentFactor": FL}, {"cls": "PricingUtils"}),
+    ("getPriceImpactUsdForCrossoverRebalance", {"initialDiffUsd": FL, "nextDiffUsd": FL, "positiveImpactFactor": FL, "negativeImpactFactor": FL,
+                                                "impactExponentFactor": FL}, {"cls": "PricingUtils"}),
+    ("get_gm_price", {"pool_value": FL, "supply_amount": FL}, {"cls": "PricingUtils"}),
+    ("applyFactor", {"value": FL, "factor": FL}, {"cls": "Precision"}),
+], prefix="gmx2_", float_mode=True)
+UNITS.append(GMX2_UTILS)
+GMX2_MARKET_UTILS = Unit("Gmx2MarketUtils", _G2 + "MarketUtils.py", [
+    ("getAdjustedSwapImpactFactors", {"pool_config": "obj"}, {"reads": _G2_CFG}),
+    ("getAdjustedSwapImpactFactor", {"pool_config": "obj", "isPositive": B}, {"reads": _G2_CFG}),
+    ("getSwapImpactAmountWithCap", {"tokenPrice": FL, "priceImpactUsd": FL, "impactPoolAmount": FL}),
+    ("usdToMarketTokenAmount", {"_usd_value": FL, "_pool_value": FL, "_supply": FL}),
+    ("marketTokenAmountToUsd", {"marketTokenAmount": FL, "poolValue": FL, "supply": FL}),
+    ("getTokenAmountsFromGM", {"pool_status": "obj", "marketTokenAmount": FL}, {"reads": _G2_STATUS}),
+    ("get_values", {"amount": FL, "price": FL, "decimal": I}, {"override_ann": ("decimal",)}),
+], cls="MarketUtils", prefix="gmx2_", float_mode=True)
+GMX2_MARKET_UTILS.uses = [GMX2_UTILS]
+UNITS.append(GMX2_MARKET_UTILS)
+
+
 BROKER_TYPING = Unit("BrokerTyping", "demeter/broker/_typing.py", [
     ("add", {"amount": D}),
     ("sub", {"amount": D, "allow_negative_balance": B}),
@@ -1694,6 +2003,7 @@ def _blocks(text):
     head, blocks = parts[0], {}
     for b in parts[1:]:
         b = re.sub(r"(?m)^end Demeter\.Py\s*\Z", "", b)
+        b = re.sub(r"(?m)^end\s*\Z", "", b)          # the `section` of a float-mode file
         m = re.search(r"(?m)^(?:partial )?def (\S+)", b)
         if m:
             blocks[m.group(1)] = b.rstrip("\n") + "\n\n"
@@ -1714,7 +2024,7 @@ def _merge_with_baseline(module, text):
     for name, b in nblocks.items():
         if name not in bblocks:
             out += b
-    return out.rstrip("\n") + "\n\nend Demeter.Py\n"
+    return out.rstrip("\n") + ("\n\nend" if "\nsection\n" in bhead else "") + "\n\nend Demeter.Py\n"
 
 
 def run(write=True, only=None):
